@@ -45,8 +45,12 @@ def join(ls, final_nl=True):
     return b"\n".join(ls) + (b"\n" if final_nl else b"")
 
 
-def srv(status=200, framing="L", cut="-", race=None, body=b""):
-    return ";".join([str(status), framing, cut, ("R" + hx(race)) if race is not None else "-", hx(body)])
+def srv(status=200, framing="L", cut="-", race=None, body=b"", redir=None):
+    """redir = (code, [location, ...]): the .sym request is answered with a redirect chain that ends at this script"""
+    f = [str(status), framing, cut, ("R" + hx(race)) if race is not None else "-", hx(body)]
+    if redir is not None:
+        f.append("V%d:%s" % (redir[0], ":".join(hx(l.encode()) for l in redir[1])))
+    return ";".join(f)
 
 
 def case(mod, servers, pre="-", locs=(), env="n", drop="-", tmo=3000):
@@ -252,7 +256,11 @@ class Case:
             p = s.split(";")
             self.servers.append({"status": int(p[0]), "framing": p[1], "cut": p[2],
                                  "race": None if p[3] == "-" else unhx(p[3][1:]), "body": unhx(p[4]),
-                                 "redirect": unhx(p[5][1:]).decode() if len(p) > 5 else None})
+                                 "redirect": unhx(p[5][1:]).decode() if len(p) > 5 and p[5][0] == "J" else None,
+                                 "hops": None})
+            if len(p) > 5 and p[5][0] == "V":
+                q = p[5][1:].split(":")
+                self.servers[-1]["hops"] = (int(q[0]), [unhx(h).decode() for h in q[1:]])
         self.redirected = None
         if self.nodebug and self.kind is None:
             # the first server that redirects the code-info lookup supplies debug file and id
@@ -272,6 +280,25 @@ class Case:
 
     def url(self, i):
         return ("http://127.0.0.1:PORT%d%s" % (i, self.target)).encode()
+
+    def hop_targets(self, i):
+        """request targets of the follow-up requests of server i's redirect chain"""
+        h = self.servers[i]["hops"]
+        out = []
+        for l in (h[1] if h else []):
+            if "://" in l:
+                rest = l.split("://", 1)[1]
+                l = rest[rest.index("/"):] if "/" in rest else "/"
+            out.append(l)
+        return out
+
+    def final_url(self, i):
+        """where the bytes of server i's response finally came from (after its redirect chain)"""
+        h = self.servers[i]["hops"]
+        if not h:
+            return self.url(i)
+        l = h[1][-1].replace("PORTSELF", "PORT%d" % i)
+        return (l if "://" in l else "http://127.0.0.1:PORT%d%s" % (i, l)).encode()
 
     def served(self, i):
         """bytes of a 200 response that the client can take for a complete body, else None"""
@@ -294,7 +321,7 @@ def sig(b):
 class C16(PropBase):
     pid = "C16"
     coq_dirs = ["Base", "C08", "C09", "C10", "C11", "C16"]
-    translators = ["c16_fsops.py"]
+    translators = ["c16_fsops.py", "symfile_loop.py", "c10_stream.py"]
     bins = ["c16"]
     impl_timeout = 600
     rule = ("each case: fresh cache/ tmp/ local dirs, a scripted loopback HTTP/1.1 server per URL (status 200/403/404/500/503; "
@@ -309,7 +336,9 @@ class C16(PropBase):
             "release head / half body / end in every interleaving, for every pair of outcomes (200 Content-Length / chunked / "
             "close-delimited, 4xx/5xx, cut mid-line, RST at a line boundary, corrupt line, no response, future dropped before the head / "
             "after the head / after half the body), late starters, pre-existing valid / corrupt / directory entries; the directories are "
-            "snapshotted after every release point. Non-trivial = a cache "
+            "snapshotted after every release point. Round 5: downloads answered through 301/302/303/307/308 redirect chains (1-3 hops, absolute "
+            "path or absolute URL) to another location that serves the file; chunked bodies whose pieces end exactly at line ends followed "
+            "by a 5-40 KB record (does not fit the parser's 10 KiB buffer) or by an unterminated last line, in many alignments. Non-trivial = a cache "
             "entry exists in some block or the future was dropped; distinct = distinct case lines")
     trusted_base = [
         "Coq 8.16.1 kernel; vm_compute in the non-vacuity examples only",
@@ -321,8 +350,13 @@ class C16(PropBase):
         "temp files are keyed by their owning client (NamedTempFile names are unique: O_EXCL + random suffix); one temp file per client at a time",
         "the symbol parser is a parameter of the model (verdict a function of the byte string: C09/C10); the driver instantiates it with C09/C10's "
         "parse_bytes (line recogniser of C16/Driver.v only for inputs with over-long lines), compared with the real parser on every case",
-        "the temp file is modelled as holding all bytes received; the real tee callback lags by the unfinished last line and has "
-        "delivered every byte when the parse returns Ok (observed through the committed content)",
+        "C16/Model.v models the temp file as holding all bytes received and the parser as a function of the whole body; C16/Stream.v removes both "
+        "simplifications for ONE download: parse_async's loop (C10/Stream.v step_stream, equal to the loop assembled from the conditions that "
+        "translate/symfile_loop.py and translate/c10_stream.py extract from sym_file/mod.rs: c16_stream_loop_is_source) with the tee callback writing "
+        "what the loop hands out; the body is a script of response.chunk() results (any sizes, empty chunks, failure anywhere). circular::Buffer is "
+        "modelled by its indices (FIFO contract, C09); which bytes a callback slice holds is the prefix of the body of that length",
+        "the streaming fetch is compared with C16/Model.v (and so with the real code) on every case whose last server is the only one that sends a body: "
+        "with C09's recogniser for bodies with lines < 6000 bytes, with the line recogniser of C16/Driver.v for the generated bodies with longer lines",
         "RAII of NamedTempFile (removed on drop unless persisted), std::fs semantics, kernel rename/link atomicity, reqwest/hyper/tokio: "
         "runtime, exercised by the harness, not modelled",
         "extraction ExtrOcamlBasic only; ocaml/c16/main.ml (script -> event list, CRC32); harness/src/bin/c16.rs (scripted server, poll-counting drop adapter)",
@@ -347,13 +381,23 @@ class C16(PropBase):
                 "holds exactly what its client received), c16_shared_cache_changes_only_in_commit, c16_shared_failed_downloads_keep_entry (no step of a client outside commit_cache_file "
                 "-- head arriving, streaming, any failure, drop -- changes an entry another client committed), c16_shared_seeded_order_refuted (removal moved into create_cache_file: "
                 "a failing client deletes the entry), c16_commit_program_refines / c16_create_program_refines (the translated programs = the one-step functions of the single-client model, "
-                "every error branch). Runtime behaviour NOT modelled but exercised: reqwest/hyper/tokio, NamedTempFile RAII, rename atomicity — "
+                "every error branch). Streaming download (round 5; C16/Stream.v = parse_async's loop as pinned from the source by C10's translators + tee callback + "
+                "create/commit; every body script: chunks of any size, empty chunks, failure at any point; every recogniser; every outcome of every fs call): "
+                "c16_stream_entry_only_from_whole_body (Ok only if the body did not fail, the loop returned Ok and the callback had been given EVERY byte; the entry is then "
+                "whole body + [newline] + note, or unchanged, or an older entry removed and persist failed; every error leaves the cache untouched; tmp as before in all cases), "
+                "c16_stream_verdict_chunk_independent (lines < 80 KiB: the verdict is the schedule-free one for every chunking), c16_stream_failed_body_leaves_nothing, "
+                "c16_stream_dropped_leaves_nothing_partial (drop after any number of loop iterations), c16_stream_loop_is_source, c16_stream_download_then_cache_hit "
+                "(C09/C10 recogniser: streamed download under any chunking, then the whole-file parse of the entry: same table, URL of the note), c16_stale_flag_refuted "
+                "(the loop with a `consumed == 0` fast path before the bookkeeping returns Ok after 15 of 23 bytes). "
+                "Runtime behaviour NOT modelled but exercised: reqwest/hyper/tokio (incl. redirect following), NamedTempFile RAII, rename atomicity — "
                 "the real HttpSymbolSupplier runs against a scripted loopback server (every truncation point, chunkings, cascades, I/O failures, "
                 "drops at poll boundaries; 2-3 suppliers sharing cache+tmp with server-controlled interleavings, directory snapshots at every release point) and is compared with the extracted "
                 "models; an independent oracle re-checks cache/tmp trees, the survival of committed entries across other clients' failures, and the re-hit.",
         "note": "Trusted: Coq kernel; hand-written model (correspondence-checked only); parser abstract (C09/C10); kernel/file-system and HTTP stack are runtime. "
                 "F-C16a (URL lost on cache hit for an over-long unterminated last line) fixed in /repo 13aaab3. Only c16_no_stray_tmp_partial / "
-                "c16_locate_no_stray_tmp_partial keep the suffix: NamedTempFile's Drop is a definition of the model, not derived.",
+                "c16_locate_no_stray_tmp_partial / c16_stream_dropped_leaves_nothing_partial keep the suffix: NamedTempFile's Drop is a definition of the model, not derived. "
+                "Redirects: reqwest follows them inside send(); the model has one URL per server (the requested one, which the code both reports and writes into the note); "
+                "the oracle demands that the entry's note names the URL the download reported and that the cache hit reports it too.",
     }
 
     # ------------------------------------------------------------------ generation
@@ -362,7 +406,8 @@ class C16(PropBase):
         cases = []
         dist = {"truncate_every_k": 0, "corrupt_line_j": 0, "drop": 0, "random": 0, "big": 0, "special": 0,
                 "own_info_url": 0, "dictionary_bodies": 0, "cut_at_line_boundary": 0,
-                "locate_file": 0, "code_info_redirect": 0, "lines_80_160k": 0, "shared_cache": 0}
+                "locate_file": 0, "code_info_redirect": 0, "lines_80_160k": 0, "shared_cache": 0,
+                "redirect_download": 0, "aligned_pieces": 0}
         bg = BodyGen(rng)
         dist["dictionary_atoms"] = len(bg.kws) + len(bg.lits)
         thorough = tier != "quick"
@@ -606,6 +651,88 @@ class C16(PropBase):
         for ln in (100000, 131072, 150000):
             frec = b"FUNC a000 20 0 " + b"f" * (ln - 15)
             add("lines_80_160k", case(0, [srv(framing=rng.choice(["L", "K1000"]), body=join(lines[:4] + [frec, b"a000 10 7 0", b"a010 10 8 1"] + lines[4:]))]))
+        # ---- the download is redirected (301/302/303/307/308, one to three hops, absolute path or absolute URL) to
+        # another location that serves the file: entry = body + note of the URL the download REPORTS, and the
+        # cache hit reports that same URL
+        mirror = "/mirror/bucket/%s" % rel_of(df0)
+        for code in (301, 302, 303, 307, 308):
+            for hops in ([mirror], ["http://127.0.0.1:PORTSELF/abs/" + rel_of(df0) + "?sig=1"], ["/hop1/x.sym", mirror], ["/a", "/b?x=1", "/c/d.sym"]):
+                if not thorough and code in (303, 308) and len(hops) > 1:
+                    continue
+                rd = (code, hops)
+                b = base if rng.chance(1, 2) else bg.body(df0)
+                nb_ = len(b)
+                add("redirect_download", case(0, [srv(body=b, redir=rd)]))
+                add("redirect_download", case(0, [srv(framing="K%d" % (nb_ // 2), body=b, redir=rd)]))
+                add("redirect_download", case(0, [srv(404), srv(framing="E", body=b, redir=rd)]))
+                add("redirect_download", case(0, [srv(cut="c%d" % rng.below(nb_), body=b, redir=rd), srv(body=base)]))
+                add("redirect_download", case(0, [srv(rng.choice([404, 500]), redir=rd), srv(body=b)]))
+                add("redirect_download", case(0, [srv(body=join(lines[:5] + [b"GARBAGE"] + lines[5:]), redir=rd), srv(body=b, redir=(code, ["/other" + mirror]))]))
+                add("redirect_download", case(0, [srv(framing="L%d" % (nb_ // 3), body=b, redir=rd)], drop=rng.below(20)))
+            add("redirect_download", case(0, [srv(body=base, redir=(code, [mirror]))], pre="F" + hx(other)))
+            add("redirect_download", case(0, [srv(body=base, redir=(code, [mirror]))], env=rng.choice(["t", "c", "w100"])))
+            add("redirect_download", case(1, [srv(body=join(sym_lines(MODS[1][0])), redir=(code, ["/m/" + rel_of(MODS[1][0])]))]))
+        # ---- network pieces that end exactly at a line end, followed by a line that does not fit the parser's
+        # 10 KiB buffer (5-40 KB record) or by an unterminated last line: the streaming parser must not take the
+        # next zero-byte read for the end of the body (chunked framing: a data frame never crosses a chunk
+        # boundary, so the pieces are what response.chunk() returns).  Entry = the WHOLE body + note, or no entry.
+        def long_rec(kind, ln, tag):
+            if kind == "PUBLIC":
+                return [b"PUBLIC %x 0 " % (0xa000 + tag) + b"p" * (ln - 15)]
+            if kind == "FUNC":
+                return [b"FUNC %x 20 0 " % (0xc000 + 0x100 * tag) + b"f" * (ln - 15), b"%x 10 7 0" % (0xc000 + 0x100 * tag)]
+            if kind == "FILE":
+                return [b"FILE %d " % (50 + tag) + b"d" * (ln - 8)]
+            return [b"INFO " + b"i" * (ln - 5)]
+        head4, rest4 = lines[:4], lines[4:]
+        fill_opts = [0, 0, 2900, 5100, 6000, 9000]
+        lens = [5200, 7000, 9000, 10239, 10240, 10241, 12000, 20000, 30000, 40000]
+        reps = 1 if not thorough else 4
+        tagc = 0
+        for ln in lens:
+            for kind in ("PUBLIC", "FUNC", "FILE", "INFO"):
+                for rep in range(reps):
+                    tagc += 1
+                    fill = [b"FILE %d filler/%04d.c" % (100 + i, i) for i in range(rng.choice(fill_opts) // 24)]
+                    where = rng.choice(["early", "groups", "last", "twice"])
+                    rec = long_rec(kind, ln + rng.below(3), tagc % 7)
+                    if where == "early":
+                        ls = head4 + fill + rec + rest4
+                        at = [len(join(head4 + fill))]
+                    elif where == "groups":
+                        ls = head4 + fill + rest4[:6] + rec + rest4[6:]
+                        at = [len(join(head4 + fill + rest4[:6]))]
+                    elif where == "last":
+                        ls = head4 + fill + rest4 + rec
+                        at = [len(join(head4 + fill + rest4))]
+                    else:
+                        rec2 = long_rec(rng.choice(["PUBLIC", "INFO"]), rng.choice(lens), 6)
+                        ls = head4 + rec + fill + rest4 + rec2
+                        at = [len(join(head4)), len(join(head4 + rec + fill + rest4))]
+                    b = join(ls)
+                    allnl = [i + 1 for i in range(len(b)) if b[i:i + 1] == b"\n"]
+                    variants = [at, [x for x in allnl if x <= at[-1]], at + [at[-1] + rng.range(1, ln - 1)], at + [x for x in allnl if x > at[-1]][:1]]
+                    for v in ([variants[0], rng.choice(variants[1:])] if not thorough else variants):
+                        add("aligned_pieces", case(0, [srv(framing="K" + ",".join(map(str, sorted(set(v)))), body=b)]))
+                    if rep == 0 and kind in ("PUBLIC", "INFO"):
+                        add("aligned_pieces", case(0, [srv(framing="L" + ",".join(map(str, at)), body=b)]))
+        # unterminated last line after an aligned piece (short, or 5-40 KB): rejected, nothing cached
+        for tailrec in (b"PUBLIC b000 0 tail", b"FILE 9 x", b"I", b"PUBLIC b000 0 " + b"t" * 6000, b"INFO " + b"u" * 12000, b"PUBLIC b000 0 " + b"v" * 33000):
+            for k in ([len(base)] + ([rng.choice(nls)] if len(tailrec) < 100 else [])):
+                b = base[:k] + tailrec
+                cutset = [k] if rng.chance(1, 2) else [x for x in nls if x <= k]
+                add("aligned_pieces", case(0, [srv(framing="K" + ",".join(map(str, cutset)), body=b)]))
+                add("aligned_pieces", case(0, [srv(framing="K" + ",".join(map(str, cutset)), body=b), srv(body=base)]))
+                add("aligned_pieces", case(0, [srv(framing="E", cut="c%d" % len(b), body=b + b"\nFILE 7 never-sent\n")]))
+        # every line end of the small file as the only chunk boundary, the next line made long / the rest unterminated
+        for k in nls:
+            if k < n:
+                j = base.index(b"\n", k)
+                if base[k:j].split(b" ")[0] in (b"MODULE", b"INFO", b"FILE", b"FUNC", b"PUBLIC", b"STACK"):
+                    # (a line record takes no trailing text)
+                    b = base[:j] + b" " + b"w" * 11000 + base[j:]
+                    add("aligned_pieces", case(0, [srv(framing="K%d" % k, body=b)]))
+                add("aligned_pieces", case(0, [srv(framing="K%d" % k, body=base[:j])]))
         # 200 KiB file, sampled cuts
         big_lines = sym_lines(df0, nfunc=2400, npub=1200)
         big = join(big_lines)
@@ -697,7 +824,7 @@ class C16(PropBase):
         if "q" in b:
             q = b["q"]
             if q != "-":
-                q = ",".join(e.split(":")[0] for e in q.split(","))
+                q = ",".join(e.split(":")[0] for e in q.split(",") if not e.split(":")[1].startswith("3e")) or "-"
             parts.append("q=" + q)
         cc = b.get("c", "?")
         if cc != "-":
@@ -855,12 +982,16 @@ class C16(PropBase):
                 if b.get("t") != "-" or b.get("c") != "-" or b["r"].startswith("OK"):
                     return "module without debug file/id and no redirect: nothing can be looked up, yet block %s is %s" % (name, b)
             return None
+        # the note names the source URL; the property does not say whether that is the URL asked for or the one a
+        # redirect chain ended at -- it says the cache hit reports the SAME URL as the download did.  Both forms
+        # are accepted as content, and the URL in the entry must be the one the download reported.
         committed = {}
         for i in range(len(c.servers)):
             sv = c.served(i)
             if sv is not None:
                 sep = b"" if (not sv or sv.endswith(b"\n")) else b"\n"
-                committed[sig(sv + sep + b"INFO URL " + c.url(i) + b"\n")] = i
+                for eu in (c.final_url(i), c.url(i)):
+                    committed[sig(sv + sep + b"INFO URL " + eu + b"\n")] = (i, eu)
         foreign = set()
         if c.pre.startswith("F"):
             foreign.add(sig(unhx(c.pre[1:])))
@@ -885,7 +1016,7 @@ class C16(PropBase):
                 if s not in committed:
                     return ("cache entry (len %s) in block %s is not <complete 200 body> + INFO URL record of any server "
                             "(partial, corrupt or wrongly annotated file cached)" % (ln, name))
-                i = committed[s]
+                i, eu = committed[s]
                 if name == "X":
                     return "cache entry created although the lookup was dropped"
                 first = bl["A"] if name in "AB" else bl["X"]
@@ -893,12 +1024,22 @@ class C16(PropBase):
                     return "cache entry created by a lookup that did not succeed (%s)" % first["r"]
                 if name in "AB" and first["r"].startswith("OK:") and first.get("q", "-") != "-" and not (c.nodebug and name == "B"):
                     url = unhx(first["r"].split(":")[3]) if first["r"].split(":")[3] != "N" else None
-                    if url != c.url(i):
-                        return "cache entry annotated with a URL other than the one the lookup reports"
+                    if url != eu:
+                        return "cache entry annotated with a URL other than the one the lookup reports (entry: %r, lookup: %r)" % (eu[-60:], (url or b"none")[-60:])
             if b.get("q", "-") != "-":
                 idx = []
+                hop = {}
                 for e in b["q"].split(","):
                     i, t = e.split(":")
+                    if t.startswith("3e"):
+                        # follow-up request of a redirect chain: right after a request to the same server, hops in order
+                        i = int(i)
+                        want = c.hop_targets(i)
+                        k = hop.get(i, 0)
+                        if not idx or idx[-1] != i or k >= len(want) or unhx(t[2:]).decode("utf-8", "replace") != want[k]:
+                            return "unexpected follow-up request %r to server %d" % (unhx(t), i)
+                        hop[i] = k + 1
+                        continue
                     if c.nodebug and "?" not in unhx(t).decode("utf-8", "replace"):
                         if idx:
                             return "code-info lookup after a symbol download was already attempted"
@@ -928,7 +1069,7 @@ class C16(PropBase):
             # a download succeeded: the reported URL is the one of the last server queried
             last = int([e for e in bl["A"]["q"].split(",") if not c.nodebug or "3f" in e.split(":")[1]][-1].split(":")[0])
             u = bl["A"]["r"].split(":")[3]
-            if u == "N" or unhx(u) != c.url(last):
+            if u == "N" or unhx(u) not in (c.url(last), c.final_url(last)):
                 return "downloaded symbol file does not report the URL it came from"
             if c.served(last) is None:
                 return "lookup succeeded from a response that was not a complete 200 body"
